@@ -10,7 +10,9 @@ from hypothesis import strategies as st
 from vkit.runner import Prop, passed, violation
 
 LEAF_KINDS = ['linear'] * 5 + ['conv'] * 4 + ['linear', 'linear', 'linear_nobias', 'conv', 'conv', 'conv_nobias', 'sublinear', 'subconv', 'relu', 'tanh',
-              'flatten', 'bn', 'ln', 'embedding', 'paramleaf', 'identity', 'bilinear', 'conv1d', 'lazyname']
+              'flatten', 'bn', 'ln', 'embedding', 'paramleaf', 'identity', 'bilinear', 'conv1d', 'lazyname',
+              # supported classes that are NOT leaves: they own child modules (empty containers to be filled later / an activation)
+              'linear_empty_kids', 'conv_empty_kids', 'linear_with_act']
 CONTAINERS = ['seq', 'modlist', 'moddict', 'custom']
 FREEZE = ['none', 'none', 'none', 'none', 'weight', 'bias', 'all']
 NAME_POOL = ['fc', 'fc2', 'fc_out', 'conv', 'conv_bn', 'head', 'head2', 'block', 'block1', 'layer1', 'proj', 'proj_out', 'embed', 'skip_me', 'a', 'a1', 'b0', 'linear', 'Linear', 'x_1']
@@ -128,6 +130,22 @@ def build(tree):
     class MyColumnParallelLinear(ColumnParallelLinear):      # a subclass has a different class name: not eligible
         pass
 
+    class SlotLinear(nn.Linear):             # a Linear that owns (still empty) containers: a parent module, not a leaf
+        def __init__(self):
+            super().__init__(3, 2)
+            self.adapters = nn.ModuleDict()
+            self.post = nn.Sequential()
+
+    class SlotConv(nn.Conv2d):
+        def __init__(self):
+            super().__init__(2, 3, 2)
+            self.branches = nn.ModuleList()
+
+    class ActLinear(nn.Linear):              # a Linear that owns an activation module
+        def __init__(self):
+            super().__init__(3, 2)
+            self.act = nn.Tanh()
+
     shared: dict = {}
 
     def leaf(spec):
@@ -141,6 +159,7 @@ def build(tree):
             'flatten': nn.Flatten, 'bn': lambda: nn.BatchNorm2d(3), 'ln': lambda: nn.LayerNorm(2),
             'embedding': lambda: nn.Embedding(5, 3), 'paramleaf': ParamLeaf, 'identity': nn.Identity,
             'bilinear': lambda: nn.Bilinear(2, 2, 2), 'conv1d': lambda: nn.Conv1d(2, 2, 2), 'lazyname': Linearish,
+            'linear_empty_kids': SlotLinear, 'conv_empty_kids': SlotConv, 'linear_with_act': ActLinear,
         }[t]()
         fr = spec['freeze']
         if fr == 'all':
